@@ -104,7 +104,7 @@ def outcome_tables_ok(env, kind, it, outs, mut_ptrs, n, need_return=True):
     return worst
 
 
-def build_by_type(env, kind, ty, n, st, names, bool_choice, n_dyn=None):
+def build_by_type(env, kind, ty, n, st, names, bool_choice, n_dyn=None, nq=None):
     """abstract argument from a type; returns (value, list of &mut table ptrs).  n_dyn: the (independent) variable
     count of a dynamic Lut handed to a StaticLut<N,T> impl (its n is a run-time quantity the type does not bind)"""
     K = env.kinds[kind]
@@ -113,6 +113,8 @@ def build_by_type(env, kind, ty, n, st, names, bool_choice, n_dyn=None):
         K2 = env.kinds["dyn" if ty["path"] == LUT_ADT else "static"]
         if n_dyn is not None and ty["path"] == LUT_ADT and kind == "static":
             return K2.mk(st, n_dyn, sym_words(n_dyn, names.pop(0))), []
+        if nq and ty["path"] == LUT_ADT:
+            n = nq.pop(0)     # dynamic tables of different sizes in one call (clone_from, comparisons)
         return K2.mk(st, n, sym_words(n, names.pop(0))), []
     if k == "adt" and ty.get("local"):
         adt = env.facts.adts.get(ty["path"])
@@ -120,13 +122,13 @@ def build_by_type(env, kind, ty, n, st, names, bool_choice, n_dyn=None):
             raise Undecided("cannot build %s" % ty["s"])
         fs = []
         for f in adt["variants"][0]["fields"]:
-            v, _ = build_by_type(env, kind, f["ty"], n, st, names, bool_choice, n_dyn)
+            v, _ = build_by_type(env, kind, f["ty"], n, st, names, bool_choice, n_dyn, nq)
             fs.append(v)
         return Agg("adt", ty["path"], 0, fs), []
     if k == "adt" and ty["path"] in (api.LUT_PATHS if hasattr(api, "LUT_PATHS") else ()):
         raise Undecided("foreign table type")
     if k == "ref":
-        v, _ = build_by_type(env, kind, ty["t"], n, st, names, bool_choice, n_dyn)
+        v, _ = build_by_type(env, kind, ty["t"], n, st, names, bool_choice, n_dyn, nq)
         p = K.place(st, v)
         muts = [p] if ty["mut"] and isinstance(v, Agg) and v.key == K.adt else []
         if ty["mut"] and isinstance(v, Agg) and v.key != K.adt:
@@ -326,23 +328,34 @@ def run(chk):
             cross = kind == "static" and fixed is None and any(mentions_path(t, LUT_ADT) for t in ins)
             nlist = [fixed] if fixed is not None else ([None] if no_inputs else range(0, nmax + 1))
             combos = [(n, nd) for n in nlist for nd in (range(0, nmax + 3) if cross else (None,))]
+            # two dynamic tables in one call may have different sizes (clone_from, eq, cmp ...): the result must
+            # still be well formed for the num_vars it carries (a panic is fine)
+            two_dyn = kind == "dyn" and sum(1 for t in ins if mentions_path(t, LUT_ADT)) >= 2
+            if two_dyn and fixed is None:
+                combos += [(n, ("pair", n2)) for n in (0, 3, 5, 6, 7) for n2 in (0, 2, 5, 6, 7, 8) if n2 != n]
             for n, n_dyn in combos:
+                nq = None
+                if isinstance(n_dyn, tuple):
+                    nq = [n, n_dyn[1]]
+                    n_dyn = None
                 for bool_choice in ((0, 1) if any("Iterator" in t["s"] for t in ins) else (1,)):
-                    key = "%s n=%s%s%s" % (label, n, " ok=%d" % bool_choice if any("Iterator" in t["s"] for t in ins) else "",
-                                           " n_in=%d" % n_dyn if n_dyn is not None else "")
+                    key = "%s n=%s%s%s%s" % (label, n, " ok=%d" % bool_choice if any("Iterator" in t["s"] for t in ins) else "",
+                                             " n_in=%d" % n_dyn if n_dyn is not None else "", " other n=%d" % nq[1] if nq else "")
                     try:
                         it = env.interp()
                         it.join_on_top = True
                         st = State()
                         args, muts, names = [], [], ["a", "b"]
+                        nq_used = nq is not None
+                        nq_run = list(nq) if nq else None
                         for ty in ins:
-                            v, m = build_by_type(env, kind, ty, n, st, names, bool_choice, n_dyn)
+                            v, m = build_by_type(env, kind, ty, n, st, names, bool_choice, n_dyn, nq_run)
                             args.append(v)
                             muts += m
                         envn = K.env(n) if kind == "static" and n is not None else ({"N": n, "T": table_words(n)} if b["generics"] else {})
                         outs = it.call_body(b, args, st, envn)
                         tab_muts = [m for m in muts if not isinstance(m, tuple)]
-                        v, d = outcome_tables_ok(env, kind, it, outs, tab_muts, n, need_return=tr["path"] != "std::convert::TryFrom")
+                        v, d = outcome_tables_ok(env, kind, it, outs, tab_muts, None if nq_used else n, need_return=(tr["path"] != "std::convert::TryFrom" and not nq_used))
                         if v == PROVED:
                             # tables stored inside mutated structs (iterators)
                             for m in muts:
